@@ -8,6 +8,7 @@ import (
 	"cqlsim/world"
 
 	"github.com/datastax/cql-proxy/proxy"
+	"github.com/datastax/go-cassandra-native-protocol/frame"
 	"github.com/datastax/go-cassandra-native-protocol/message"
 	"github.com/datastax/go-cassandra-native-protocol/primitive"
 )
@@ -192,6 +193,15 @@ func c12(e *Env) {
 	}
 	var recs []rec
 	nOps := 10 + c.Choose("c12ops", 40)
+	// some runs: a long history in which most requests are completed by the proxy itself (every
+	// host of the plan answers "bootstrapping": the proxy runs out of hosts and says so), followed
+	// by requests nothing is injected for. Whatever the proxy keeps per overridden request must be
+	// given up however the request ends; the hundredth such request is treated like the first.
+	longFailing := c.Choose("long-failing-history", 6) == 5
+	if longFailing {
+		nOps = 120 + c.Choose("c12longops", 200)
+		e.Res.Stats["probe.c12.long_history_of_proxy_completed_requests"]++
+	}
 	sent := 0
 	maxVal := []int{64, 4096, 65536}[c.Choose("maxval", 3)]
 	var en []int
@@ -208,9 +218,32 @@ func c12(e *Env) {
 		return len(en)
 	}
 	forgetful := c.Choose("forgetful-nodes", 2) == 1
+	// some runs: a v3 client sets the CUSTOM_PAYLOAD header flag (0x04, defined from v4 on) and puts
+	// a payload map in front of its message - a frame that is not well-formed under its version.
+	// What becomes of that request is not judged (an error, a closed connection and even a lost
+	// backend connection are all defensible); what every *other* request looks like at the
+	// backend is judged as always, and no backend may receive bytes that are not a frame.
+	misflag := c.Choose("v3-payload-flag", 3) == 2
+	misflagged := map[*world.Client]bool{}
 	w.DoWork = func(k int) {
 		cl := f.clients[en[k]]
 		sent++
+		if misflag && cl.Version == primitive.ProtocolVersion3 && c.Choose("misflag-now", 5) == 4 {
+			tok := w.NewToken()
+			fr := frame.NewFrame(primitive.ProtocolVersion4, 0, world.QueryMsg("INSERT INTO ks.t (k, v) VALUES ('"+tok+"', 1)", world.AllConsistencies[c.Choose("misflag-cl", len(world.AllConsistencies))]))
+			fr.SetCustomPayload(map[string][]byte{"k": []byte("v")})
+			stream := cl.FreeStream()
+			fr.Header.StreamId = stream
+			raw, err := world.TryEncodeFrame("", fr)
+			if err != nil {
+				panic("harness: " + err.Error())
+			}
+			raw[0] = byte(primitive.ProtocolVersion3)
+			cl.SendRaw(stream, "query", tok, raw, fr.Body.Message)
+			misflagged[cl] = true
+			e.Res.Stats["probe.c12.v3_frame_with_custom_payload_flag"]++
+			return
+		}
 		if forgetful && c.Choose("forget", 6) == 5 {
 			// a node loses its prepared statements (restart): the next EXECUTE there is answered
 			// UNPREPARED, the proxy re-prepares on its own account and executes again; what the
@@ -228,7 +261,10 @@ func c12(e *Env) {
 				g.CL = g.Msg.(*message.Query).Options.Consistency
 			}
 		}
-		if c.Choose("retry", 4) == 3 {
+		if longFailing && sent <= nOps-8 && c.Choose("fails-everywhere", 5) != 0 {
+			boot := world.ErrOutcome("bootstrapping", &message.IsBootstrapping{ErrorMessage: "boot"})
+			w.Script[tok] = []world.Outcome{boot, boot, boot, boot, boot}
+		} else if c.Choose("retry", 4) == 3 {
 			// the re-encoded frame object is sent again on every retry
 			w.Script[tok] = []world.Outcome{world.ErrOutcome("bootstrapping", &message.IsBootstrapping{ErrorMessage: "boot"}), world.ErrOutcome("bootstrapping", &message.IsBootstrapping{ErrorMessage: "boot"})}
 		}
@@ -241,7 +277,7 @@ func c12(e *Env) {
 		return
 	}
 	for _, cl := range f.clients {
-		if !cl.Connected() && !cl.Gone {
+		if !cl.Connected() && !cl.Gone && !misflagged[cl] {
 			w.Violate("c12-reject", "valid-frame-rejected", fmt.Sprintf("%s (%s) sent only well-formed frames but the proxy closed its connection", cl, cl.Version))
 			return
 		}
@@ -265,7 +301,7 @@ func c12(e *Env) {
 	for _, r := range recs {
 		req, g := r.req, r.g
 		expectOverride := len(unsupported) > 0 && !g.Select && inList[g.CL]
-		if _, scripted := w.Script[req.Token]; !scripted && !forgetful && !knownReprepareSeen {
+		if _, scripted := w.Script[req.Token]; !scripted && !forgetful && !knownReprepareSeen && len(misflagged) == 0 {
 			// nothing was injected for this request: it reaches a backend and is answered by it,
 			// overridden or not (a request that the proxy fails to re-encode is not "forwarded")
 			if len(w.Attempts[req.Token]) == 0 {
